@@ -1420,7 +1420,8 @@ class NLDFAuxiliaryPlan(ABC):
             coef_order=self.coef_order,
             alpha_formula=self.alpha_formula,
             proc_inds=self.proc_inds,
-            rhocut=self.rhocut,
+            # self.rhocut is stored divided by nspin; __init__ divides again
+            rhocut=self.rhocut * self.nspin,
             expcut=self.expcut,
         )
         new_kwargs.update(kwargs)
